@@ -24,7 +24,11 @@ type ReplayFile struct {
 	Signature string   `json:"signature"`
 	Trace     []string `json:"trace"`
 	MinRuns   int      `json:"minimiser_runs"`
-	OrigTape  int      `json:"original_tape_len"`
+	// History replay: when the finding depends on library state left behind by EARLIER runs of the
+	// same worker process (package-level caches and the like), the replay re-executes that worker's
+	// whole run sequence up to the failing run.
+	History  *HistoryInfo `json:"history,omitempty"`
+	OrigTape int          `json:"original_tape_len"`
 }
 
 type WorkerOut struct {
@@ -39,4 +43,10 @@ type HangInfo struct {
 	Label  string `json:"label"`
 	Config Config `json:"config"`
 	Seed   uint64 `json:"seed"`
+}
+
+type HistoryInfo struct {
+	Worker   uint64 `json:"worker"`
+	Workers  uint64 `json:"workers"`
+	ScalePct uint64 `json:"scale_pct"`
 }
